@@ -36,7 +36,7 @@ def run(ctx):
     jf = [(src(e), t) for e, t in guard_facts(sa, js[0][0])]
     hf = [(src(e), t) for e, t in guard_facts(sa, h5[0][0])]
     ctx.ob("R-REG", "C19.1", sr, "json extension goes to the JSON writer, hdf5/h5 to the HDF5 writer, both with the same dictionary and the final filename",
-           ("extension == 'json'", True) in jf and ("extension in ['hdf5', 'h5']", True) in hf and len(js[0][1].args) == 2 and [src(a) for a in js[0][1].args] == [src(a) for a in h5[0][1].args] and src(js[0][1].args[1]) == "filename" and bool(find_stmt(f"{src(js[0][1].args[0])} = self.ns.get_result_dictionary()", sr.node)), f"json under {jf}; hdf5 under {hf}")
+           _ext_values(guard_facts(sa, js[0][0])) == {"json"} and _ext_values(guard_facts(sa, h5[0][0])) == {"hdf5", "h5"} and len(js[0][1].args) == 2 and [src(a) for a in js[0][1].args] == [src(a) for a in h5[0][1].args] and src(js[0][1].args[1]) == "filename" and bool(find_stmt(f"{src(js[0][1].args[0])} = self.ns.get_result_dictionary()", sr.node)), f"json under {jf}; hdf5 under {hf}")
     # three filename/extension cases
     ext = find_stmt("$$e = os.path.splitext(filename)[1].lstrip('.')", sr.node)
     ctx.ob("R-REG", "C19.1", sr, "extension handling: inferred from the filename, explicit, or appended when the filename has none (and rejected when neither is given)",
@@ -110,7 +110,23 @@ def run(ctx):
     dk = find_stmt("$$k = dict(indent=4, cls=NessaiJSONEncoder)", sj.node)
     upd = find_expr("$k.update(kwargs)", sj.node)
     dump = find_expr("json.dump(d, $fp, **$k)", sj.node)
-    ctx.ob("R-ORDER", "C19.2", sj, "save_to_json always installs NessaiJSONEncoder (caller kwargs may extend it) and dumps the given dictionary", len(dk) == 1 and len(upd) == 1 and len(dump) == 1 and src(dump[0][1]["k"]) == src(dk[0][1]["k"]), "")
+    ok_enc = len(dk) == 1 and len(upd) == 1 and len(dump) == 1 and src(dump[0][1]["k"]) == src(dk[0][1]["k"])
+    if not ok_enc:
+        # other spellings: json.dump(d, fp, indent=4, cls=NessaiJSONEncoder, **kwargs), or **{"cls": NessaiJSONEncoder, ..., **kwargs}
+        inl_sj = single_assignments(sj.node)
+        for c_ in walk_no_nested(sj.node):
+            if isinstance(c_, ast.Call) and call_name(c_) == "json.dump" and c_.args and src(c_.args[0]) == "d":
+                direct = any(k_.arg == "cls" and src(k_.value) == "NessaiJSONEncoder" for k_ in c_.keywords)
+                spread = False
+                for k_ in c_.keywords:
+                    if k_.arg is None:
+                        v_ = inl_sj.get(k_.value.id) if isinstance(k_.value, ast.Name) and k_.value.id in inl_sj else k_.value
+                        if isinstance(v_, ast.Dict) and any(isinstance(a_, ast.Constant) and a_.value == "cls" and src(b_) == "NessaiJSONEncoder" for a_, b_ in zip(v_.keys, v_.values)):
+                            spread = True
+                        if isinstance(v_, ast.Call) and call_name(v_) == "dict" and any(a_.arg == "cls" and src(a_.value) == "NessaiJSONEncoder" for a_ in v_.keywords):
+                            spread = True
+                ok_enc = ok_enc or direct or spread
+    ctx.ob("R-ORDER", "C19.2", sj, "save_to_json always installs NessaiJSONEncoder (caller kwargs may extend it) and dumps the given dictionary", ok_enc, "")
     sk = ctx.fn(FS + ".save_kwargs")
     call = [c for c in walk_no_nested(sk.node) if isinstance(c, ast.Call) and call_name(c) == "save_to_json"]
     ctx.ob("R-ORDER", "C19.2", sk, "config.json is written through save_to_json without replacing the encoder (classes, pools, callbacks fall back to str)", len(call) == 1 and not [k for k in call[0].keywords if k.arg == "cls"] and match_expr("os.path.join(self.output, 'config.json')", call[0].args[1]) is not None, "")
@@ -141,7 +157,19 @@ def run(ctx):
     eh = ctx.fn(IO + ":encode_for_hdf5")
     eha = FA(eh)
     none_branch = find_stmt("if value is None:\n    $$o = '__none__'\nelse:\n    $$o = value", eh.node)
-    ctx.ob("R-SIB", "C19.3", eh, "None is encoded as the '__none__' marker and every other value is passed through unchanged", len(none_branch) == 1 and len(find_stmt("return $$o", eh.node)) == 1, "")
+    from ..summ import summarise as _summ19
+    from ..q import conjuncts as _conj19
+
+    ehp = [pa_ for pa_ in _summ19(eh.node) if pa_.end == "return"]
+    ok_none = len(ehp) == 2
+    for pa_ in ehp:
+        is_none = {True: None}
+        for t_, tr_ in pa_.guards:
+            for e_, v_ in _conj19(t_, tr_):
+                if isinstance(e_, ast.Compare) and len(e_.ops) == 1 and isinstance(e_.ops[0], ast.Is) and src(e_.left) == "value" and isinstance(e_.comparators[0], ast.Constant) and e_.comparators[0].value is None:
+                    is_none = v_
+        ok_none = ok_none and ((is_none is True and isinstance(pa_.ret, ast.Constant) and pa_.ret.value == "__none__") or (is_none is False and src(pa_.ret) == "value"))
+    ctx.ob("R-SIB", "C19.3", eh, "None is encoded as the '__none__' marker and every other value is passed through unchanged", ok_none, f"{[(src(pa_.ret)) for pa_ in ehp]}")
     sh = ctx.fn(IO + ":save_dict_to_hdf5")
     ctx.ob("R-ORDER", "C19.3", sh, "the HDF5 writer opens the file for writing and stores the whole dictionary from the root", len(find_expr("h5py.File(filename, 'w')", sh.node)) == 1 and len(find_expr("add_dict_to_hdf5_file($f, '/', d)", sh.node)) == 1, "")
     ctx.floor("C19.3", 4)
@@ -200,11 +228,39 @@ def run(ctx):
 
 
 def _dict_keys(fnode):
+    """Constant string keys a function puts into dictionaries: `d["k"] = v`, `d = {"k": v, ...}`, `d = dict(k=v, ...)`
+    (`d.update(k=v)` is already `d["k"] = v` in the program model)."""
     out = set()
     for n in walk_no_nested(fnode):
         if isinstance(n, ast.Subscript) and isinstance(n.ctx, ast.Store) and isinstance(n.slice, ast.Constant) and isinstance(n.slice.value, str):
             out.add(n.slice.value)
+        elif isinstance(n, ast.Dict):
+            out |= {k.value for k in n.keys if isinstance(k, ast.Constant) and isinstance(k.value, str)}
+        elif isinstance(n, ast.Call) and isinstance(n.func, ast.Name) and n.func.id == "dict":
+            out |= {k.arg for k in n.keywords if k.arg}
     return out
+
+
+_KNOWN_EXT = {"json", "hdf5", "h5"}
+
+
+def _ext_values(facts):
+    """The values `extension` can have where a statement runs, out of the three the dispatch knows: equalities /
+    memberships that hold restrict the set, those that do not hold remove their literals."""
+    vals = set(_KNOWN_EXT)
+    for e, t in facts:
+        if not (isinstance(e, ast.Compare) and len(e.ops) == 1 and src(e.left) == "extension"):
+            continue
+        op, r = e.ops[0], e.comparators[0]
+        lits = None
+        if isinstance(op, (ast.Eq, ast.NotEq)) and isinstance(r, ast.Constant):
+            lits, positive = {r.value}, isinstance(op, ast.Eq) == t
+        elif isinstance(op, (ast.In, ast.NotIn)) and isinstance(r, (ast.List, ast.Tuple, ast.Set)) and all(isinstance(x, ast.Constant) for x in r.elts):
+            lits, positive = {x.value for x in r.elts}, isinstance(op, ast.In) == t
+        if lits is None:
+            continue
+        vals = (vals & lits) if positive else (vals - lits)
+    return vals
 
 
 CLAIM = {
